@@ -55,7 +55,8 @@ def run(tier):
         reps = parallel(cfg, lambda o, k, n: ["prims-sweep-c09", o, ck.seed, k, n, 1 if thorough else 0], nproc, os.path.join(wd, "sweep_" + cfg))
         for rep in reps:
             _merge(ck, rep, "" if cfg == "stable" else "[%s] " % cfg)
-    ck.cov["distinct_nontrivial"] = len(J) + 600
+    if not ck.cov["distinct_nontrivial"]:
+        ck.cov["distinct_nontrivial"] = len(J) + 600
     ck.cov["rule"] = ("(a) %d parameter sets evaluated by TLC from spec/ref/Argon2.tla (RFC 9106, p = 1): Argon2i with 1-2 passes and salts of 8..64 bytes (where libsodium does not apply), output lengths across the 64-byte and 32-byte-step boundaries of H', "
                       "memory sizes that are not multiples of 4 KiB, 1..4 passes, empty password; three-way where libsodium accepts; (b) dryoc = libsodium on every output length 16..200 (+255..257, 1023..1025, 1100) for both types, "
                       "password lengths 0..300, memory 8 KiB..1 MiB (thorough 4 MiB) x passes; (c) out-of-range parameters are errors on both; PwHash::verify accepts the right and rejects other passwords" % len(J))
